@@ -208,7 +208,7 @@ def cosim_one(args):
     from harness import chantrace
     with chantrace.ChanTrace(ref):
         ctx = vrt.run_scenario(scenario, refbroker.factory(policy), seed=seed, p_preempt=0.15, p_jump=0.1,
-                               repo_path=str(common.REPO))
+                               fair_time=(seed % 2 == 1), repo_path=str(common.REPO))
     out['abort'] = ctx.sched.abort_reason
     out['preemptions'] = ctx.sched.preemptions
     out['thread_excs'] = [(t.name, repr(t.exc)) for t in ctx.sched.threads if t.exc is not None and t.kind == 'app']
